@@ -66,11 +66,11 @@ PROPS = {
                 note="Trusted: simulator, the independent obfs2 reference (sim/ref/obfsref).",
                 technique=TECH + "two-party interop against an independent reference, seeded segmentation, malformed-handshake injection"),
     "C15": dict(engine="disk", quick=40, thorough=600, level="exploration", design="DESIGN.md section 4, C15",
-                text="Histories of up to 6 steps (connect, 7-day jumps, hour jumps, ticket-file deletion, restart = new factory on the same simulated disk) of the real ScrambleSuit client against a reference server: reply padding 0..1308 incl. extremes, the reply split at every byte position from the end of the key to its last byte (mark and MAC favoured), control packets and first data coalesced behind the reply, all chunkings, wrong secret, single-bit tampering of every reply field and of data packets, ticket issue; oracle: Dial completes for every split, streams exact and complete after 10 quiet virtual minutes, tampering surfaces as an error with no altered data, every ticket seen by the server at most once, wrong secret / tampered reply fail within 60 s.",
+                text="Histories of up to 6 steps (connect, 7-day jumps, hour jumps, ticket-file deletion, restart = new factory on the same simulated disk) of the real ScrambleSuit client against a reference server: reply padding 0..1308 incl. extremes, the reply split at every byte position from the end of the key to its last byte (mark and MAC favoured), control packets and first data coalesced behind the reply, all chunkings, wrong secret, single-bit tampering of every reply field and of data packets (followed by more traffic, by silence or by the end of the stream), ticket issue; oracle: Dial completes for every split, streams exact and complete after 10 quiet virtual minutes, tampering surfaces as an error with no altered data, every ticket seen by the server at most once, wrong secret / tampered reply fail within 60 s.",
                 note="The ScrambleSuit reference server (sim/ref/obfsref/ss.go) follows the published protocol from memory; it is the least independent reference. Tickets live on the simulated disk (os -> simos).",
                 technique=TECH + "history generation with response-split enumeration, tampering faults and a ticket-use model on a virtual clock and disk"),
     "C16": dict(engine="wire", engines=["wire", "woven"], quick=40, thorough=600, level="exploration", design="DESIGN.md section 4, C16",
-                text="The real meek_lite client (real net/http transport over the simulated network, runtime select order from the seeded seam) against a reference HTTP/1.1 server that records bodies, session ids and overlap and answers 200 with tape-sized slices (empty, small, partial, full 64 KiB) of a position-coded downstream stream; application writes of 1 byte .. 3 x 65536 with pauses up to 7 s (so the 100 ms .. 5 s poll back-off runs), Close at a tape-chosen instant; oracle: request bodies in order are exactly the written stream (complete after 20 quiet virtual minutes if not closed), Read delivers exactly the response bodies, bodies <= 65536, one session id, never two requests in flight, after Close Write fails, Read fails after a bounded drain, at most one more request and none in the following hour.",
+                text="The real meek_lite client (real net/http transport over the simulated network, runtime select order from the seeded seam) against a reference HTTP/1.1 server that records bodies, session ids and overlap and answers 200 with tape-sized slices (empty, small, partial, full 64 KiB) of a position-coded downstream stream; application writes of 1 byte .. 3 x 65536 with pauses up to 7 s (so the 100 ms .. 5 s poll back-off runs), Close at a tape-chosen instant; oracle: request bodies in order are exactly the written stream (complete after 20 quiet virtual minutes if not closed), Read delivers exactly the response bodies, bodies <= 65536, one session id, Host = the url argument's host on every request and the front (if given) as dial address, never two requests in flight, never 200 empty polls at one virtual instant, after Close Write fails, Read fails after a bounded drain, at most one more request and none in the following hour.",
                 note="net/http's internal goroutines are not named tasks; they meet the simulation only through simnet operations. Fault-free server only (non-200 / dropped connections are exercised in C10).",
                 technique=TECH + "reference HTTP server with conservation oracle under seeded scheduling, select order and virtual-time polling"),
     "C10": dict(engine="wire", quick=40, thorough=600, level="exploration", design="DESIGN.md section 4, C10",
@@ -86,11 +86,11 @@ PROPS = {
                 note="Trusted: simulator, the strict pt-spec argument encoder in the harness. IPv6 targets are compared as addresses (net.IP.Equal), domain targets byte for byte.",
                 technique=TECH + "reference client under seeded segmentation and malformed-message injection on a virtual clock"),
     "C18": dict(engine="disk", quick=30, thorough=600, level="fault_enumeration", design="DESIGN.md section 4, C18",
-                text="For tape-generated start-up histories (plain / iat-mode override / explicit identity) the next start is interrupted at EVERY disk step (kill, EIO, ENOSPC; for write steps with torn sizes 0, 1, len/2, len-1, len and a sampled one), then a plain start must succeed and present the durable identity (or the one the interrupted start was given); identity compared through Args(), the reference's reading of the advertised cert, client ParseArgs of both bridge-line forms and obfs4_bridgeline.txt.",
+                text="For tape-generated start-up histories (plain / iat-mode override / explicit identity) the next start is interrupted at EVERY disk step (kill, EIO, ENOSPC; for write steps with torn sizes 0, 1, len/2, len-1, len and a sampled one), then a plain start must succeed and present the durable identity (or the one the interrupted start was given; exactly the one a start that came up despite the error has announced); the ScrambleSuit ticket store likewise: every disk step of a connection and of the client's own start-up (also eight days later, tickets expired) under kill / EIO / ENOSPC, start-up must never fail and no spent ticket reappear; identity compared through Args(), the reference's reading of the advertised cert, client ParseArgs of both bridge-line forms and obfs4_bridgeline.txt.",
                 note="Kill model: completed disk steps persist, the step in progress persists a prefix (no loss of completed-but-unsynced writes). Trusted: simulator, simos disk model, the weave import shim (os -> simos in statefile.go and handshake_ticket.go).",
                 technique=TECH + "crash/error enumeration over every disk step of generated start-up histories with an identity-persistence model"),
     "C19": dict(engine="relay", quick=30, thorough=600, level="exploration", design="DESIGN.md section 4, C19",
-                text="The real copyLoop between two simulated connections whose far ends are scripted producer/consumer tasks (chunk sizes 1..40000, pauses, slow readers, send buffers down to 100 bytes, latencies, all chunkings) ending by half-close, close, reset or not at all; oracle: received bytes are a prefix of what the opposite side produced, a side that ends first while the other is healthy has everything forwarded, both conns closed and copyLoop returned within 10 virtual minutes; one part runs copyLoop between a plain conn and a real obfs4 server conn whose real obfs4 client sends bursts of 1 byte .. 100 KiB (16..23 KiB favoured), is answered, and closes: every byte it wrote must come out first. The real termMonitor (built from its fields, runtime select order under the seeded seam) with 0-4 handler tasks, SIGINT at a chosen time, optional SIGTERM, late handlers; oracle: wait(true) returns exactly when no handler is active, including when none ever was.",
+                text="The real copyLoop between two simulated connections whose far ends are scripted producer/consumer tasks (chunk sizes 1..40000, pauses, slow readers, send buffers down to 100 bytes, latencies, all chunkings) ending by half-close, close, reset or not at all; oracle: received bytes are a prefix of what the opposite side produced, a side that ends first while the other is healthy has everything forwarded, both conns closed and copyLoop returned within 10 virtual minutes, what the relay had read before a reset comes out on a healthy silent side (simulated sockets answer to *net.TCPConn assertions; SetLinger(0) makes a close abortive); one part runs copyLoop between a plain conn and a real obfs4 server conn whose real obfs4 client sends bursts of 1 byte .. 100 KiB (16..23 KiB favoured), is answered, and closes: every byte it wrote must come out first. The real termMonitor (built from its fields, runtime select order under the seeded seam) with 0-4 handler tasks, SIGINT at a chosen time, optional SIGTERM, late handlers; oracle: wait(true) returns exactly when no handler is active, including when none ever was.",
                 note="Harness files are injected into package main through the build overlay; signal.Notify, stdin/ppid watchers and main()'s flag handling are not run. Trusted: simulator, runtime select seam (inert unless armed).",
                 technique=TECH + "scripted far ends with EOF/RST/close faults and seeded scheduling; handler/signal histories against a handler-count model"),
 }
